@@ -112,8 +112,11 @@ def _run(prop, tier, seed, n_hist, budget, batch, workers, evidence_path, t0, ev
             + [(c, "all", 6000) for c in primary for _ in range(2)]
     sweep_master = random.Random(seed ^ 0x5EEDF00D)   # its own stream: sweep seeds do not depend on the number of histories
     for (c, mode, cap) in targets:
-        sweep_jobs.append({"prop": prop, "tier": tier, "run_seed": sweep_master.randrange(1 << 48), "target_cls": c, "mode": mode,
-                           "cap": cap, "minimise_s": 45 if tier == "quick" else 120})
+        sseed = sweep_master.randrange(1 << 48)
+        nchunks = 4 if (cap == 0 or cap >= 300) else 1    # big sweeps are shared by several workers
+        for ch in range(nchunks):
+            sweep_jobs.append({"prop": prop, "tier": tier, "run_seed": sseed, "target_cls": c, "mode": mode, "cap": cap,
+                               "chunk": ch, "nchunks": nchunks, "minimise_s": 45 if tier == "quick" else 120})
     if os.environ.get("VERIF_NO_SWEEPS"):
         sweep_jobs = []
     # every job stops taking new work at the soft deadline (a slow or busy machine explores less, it does not run longer)
@@ -235,9 +238,10 @@ def _run(prop, tier, seed, n_hist, budget, batch, workers, evidence_path, t0, ev
             "exhaustive": False,
             "histories": len(runs), "steps": c.get("steps", 0),
             "random_histories": sum(1 for r in runs if "sweep_ordinal" not in r),
-            "crash_site_sweeps": {"sweeps": len(sweeps), "crash_points": sum(x["points"] for x in sweeps),
-                                  "distinct_source_lines": sum(x["distinct_sites"] for x in sweeps),
-                                  "per_target": [[x["target"].get("cls"), x["mode"], x["points"], x["line_events"]] for x in sweeps]},
+            "crash_site_sweeps": {"sweeps": len({x["run_seed"] for x in sweeps}), "crash_points": sum(x["points"] for x in sweeps),
+                                  "distinct_source_lines": sum(x["distinct_sites"] for x in sweeps if x.get("chunk", [0])[0] == 0),
+                                  "per_target": [[x["target"].get("cls"), x["mode"], x.get("all_points", x["points"]), x["line_events"]]
+                                                 for x in sweeps if x.get("chunk", [0])[0] == 0]},
             "judged_ops": {k[7:]: v for k, v in sorted(c.items()) if k.startswith("judged_")},
             "reference_evaluations": c.get("ref_evals", 0), "reference_memo_hits": c.get("ref_memo_hits", 0),
             "distinct_schedules": len(schedules),
